@@ -24,6 +24,7 @@ struct BrokerCfg {
     int alt_success_rc_pct = 0;             // e.g. 0x10 no matching subscribers
     int ack_props_pct = 0;                  // acks carrying Reason String / User Properties
     int short_form_pct = 30;                // acks using a short form when legal
+    bool linger_after_disconnect = false;   // the Server reads the client's DISCONNECT and leaves the connection open (the client has to close it)
     bool silent_after_connack = false;      // never answers anything but the handshake
     vt silent_from = -1;                    // >= 0: stops answering (and sending) from this virtual time on
     vt silent_until = -1;                   // ... until this time (-1: for ever)
